@@ -11,6 +11,7 @@ from .calls import Resolver
 from .core import AnalysisError, Report, rel
 from .e4util import Run, default_arg_sets, quant_atom, run_function
 from .model import Program
+from .inline import expand_expr
 from .poly import Lin, Poly, Rat
 
 LAYERS = ("dimension", "prefix", "unit", "quantity")
@@ -583,7 +584,9 @@ def check_gates(rep: Report, prog: Program, rid: str) -> None:
     gate = None
     for n in cfg.stmt_nodes():
         if n.kind == "test" and isinstance(n.ast, ast.If):
-            t = ast.unparse(n.ast.test)
+            # the test may sit in a one-expression predicate (`_is_incommensurable(a, b)`)
+            gtest = expand_expr(prog, fi.module, n.ast.test)
+            t = ast.unparse(gtest)
             if t.count(".dimension") >= 2 and n.ast.body and isinstance(n.ast.body[-1], ast.Raise) \
                     and "ConversionNotFound" in ast.unparse(n.ast.body[-1]):
                 gate = n
@@ -598,7 +601,7 @@ def check_gates(rep: Report, prog: Program, rid: str) -> None:
         rep.check(rid, "conversions.convert:gate", not bad,
                   "a statement of convert() can execute before the dimension gate "
                   f"(`{ast.unparse(bad[0].ast)[:60] if bad else ''}`): incommensurable units may be converted", fi.where(bad[0].ast if bad else None))
-        neq = isinstance(gate.ast.test, ast.Compare) and isinstance(gate.ast.test.ops[0], (ast.NotEq, ast.IsNot))
+        neq = isinstance(gtest, ast.Compare) and isinstance(gtest.ops[0], (ast.NotEq, ast.IsNot))
         rep.check(rid, "conversions.convert:gate-test", neq, "the gate does not test that the dimensions differ", fi.where(gate.ast))
     # Quantity.__eq__/__lt__: gate returning NotImplemented dominates magnitude comparisons and conversions
     for q in ("Quantity.__eq__", "Quantity.__lt__"):
